@@ -251,6 +251,62 @@ class StepMismatch(Exception):
     pass
 
 
+def route_derived(p, sk, pk):
+    """Every event of the target is *derived with but()* from an event that already
+    sits in a checked, valid property (and has been queried); then the reverse:
+    the default events are derived from the target's events.  Returns
+    (outcome for the target, outcome for the re-derived default property)."""
+    import hpl.ast as A
+
+    def derive(src, e_abs):
+        """real simple event src -> real event with the fields of e_abs, via but()"""
+        src.external_references()
+        src.contains_self_reference()
+        out = src.but(name=e_abs[1], alias=e_abs[2], predicate=absyn.build(e_abs[3]))
+        out.external_references()
+        return out
+
+    def derive_any(src, e_abs):
+        alts = props.alternatives(e_abs)
+        evs = [derive(src, a) for a in alts]
+        cur = evs[-1]
+        for e in reversed(evs[:-1]):
+            cur = A.HplEventDisjunction(e, cur)
+        return cur
+
+    def assemble(base, events):
+        sc, pt = base.scope, base.pattern
+        if 'act' in events:
+            sc = sc.but(activator=events['act'])
+        if 'term' in events:
+            sc = sc.but(terminator=events['term'])
+        pt = pt.but(behaviour=events['beh'])
+        if 'trig' in events:
+            pt = pt.but(trigger=events['trig'])
+        return base.but(scope=sc, pattern=pt)
+
+    default_abs = build_abstract(sk, pk, ())
+    positions = props.positions(sk, pk)
+
+    def forward():
+        base = absyn.build(default_abs)
+        src = {pos: props_real_event(base, pos) for pos in positions}
+        return assemble(base, {pos: derive_any(src[pos], props.get_event(p, pos)) for pos in positions})
+
+    def backward():
+        base = absyn.build(default_abs)
+        # the target's events exist on their own even if the target property is invalid
+        tgt = {pos: absyn.build(props.get_event(p, pos)) for pos in positions}
+        firsts = {pos: next(iter(tgt[pos].simple_events())) for pos in positions}
+        return assemble(base, {pos: derive_any(firsts[pos], props.get_event(default_abs, pos)) for pos in positions})
+
+    return outcome(forward), outcome(backward)
+
+
+def props_real_event(prop, pos):
+    return {'act': prop.scope.activator, 'term': prop.scope.terminator, 'beh': prop.pattern.behaviour, 'trig': prop.pattern.trigger}[pos]
+
+
 def check_property(p, sk, pk, r):
     problems = []
     exp = scoping_verdict(p)
@@ -267,6 +323,20 @@ def check_property(p, sk, pk, r):
                 problems.append((f'invalid property accepted [{name}]: {_reason_class(exp)}', f'«{text}»: {exp}'))
             else:
                 problems.append((f'invalid property raises {got} instead of a sanity error [{name}]', f'«{text}»: {exp}'))
+    r.count('transitions', 2)
+    try:
+        fwd, bwd = route_derived(p, sk, pk)
+    except Exception as e:  # noqa: BLE001
+        fwd, bwd = 'harness:' + type(e).__name__, 'ok'
+    if fwd != want:
+        if want == 'ok':
+            problems.append((f'valid property rejected ({fwd}) [events derived with but() from checked events]', f'«{text}»'))
+        elif fwd == 'ok':
+            problems.append((f'invalid property accepted [events derived with but() from checked events]: {_reason_class(exp)}', f'«{text}»: {exp}'))
+        else:
+            problems.append((f'invalid property raises {fwd} instead of a sanity error [derived events]', f'«{text}»: {exp}'))
+    if bwd != 'ok':
+        problems.append((f'valid default property rejected ({bwd}) when its events are derived with but() from other events', f'from «{text}»'))
     r.count('transitions')
     sm = route_but_stepwise(p, sk, pk)
     if sm:
@@ -413,7 +483,7 @@ def describe(tier):
     b = bounds(tier)
     menus = '; '.join(f"<= {m['features']} features with aliases {list(m['names'])} and placements {list(m['placements'])}" for m in b['menus'])
     return {
-        'rule': f"every scope kind x pattern kind x every combination of features ({menus}) from: make a position a 2-wide disjunction; give an event (either alternative of any position) an alias; give an event a reference to an alias or to Z (never bound) placed at top level / in a quantifier body / in a quantifier domain. Each property is built three ways (parser, constructors, but() copies from the all-default property: at once, event by event, and stepwise through intermediate properties) and the accept / sanity-error outcome compared with an independent scoping function. Plus 13 quantifier-hygiene predicates x 3 positions and 10 duplicate-channel disjunctions x 5 positions x both nestings. A state = one property; a transition = one construction.",
+        'rule': f"every scope kind x pattern kind x every combination of features ({menus}) from: make a position a 2-wide disjunction; give an event (either alternative of any position) an alias; give an event a reference to an alias or to Z (never bound) placed at top level / in a quantifier body / in a quantifier domain. Each property is built four ways (parser; constructors; but() copies from the all-default property: at once, event by event, and stepwise through intermediate properties; events derived with but() from events that already sit in a checked property and have been queried, in both directions) and the accept / sanity-error outcome compared with an independent scoping function. Plus 13 quantifier-hygiene predicates x 3 positions and 10 duplicate-channel disjunctions x 5 positions x both nestings. A state = one property; a transition = one construction.",
         'bounds': {'menus': [[m['features'], len(m['names']), len(m['placements'])] for m in b['menus']]},
         'exhaustive': True,
         'assumptions': ['the same alias on two alternatives of one disjunction is parallel binding, not re-binding; an alias bound on some alternatives counts as bound for later events (C02 wording)'],
